@@ -110,6 +110,7 @@ pub fn def(tier: Tier) -> PropertyDef {
                 .boxed(),
             crate::props::binsubs::c02_sub(tier),
             crate::props::binsubs::c02_sub_large(tier),
+            crate::props::binsubs::c02_sub_edge(tier),
         ],
         workers: 16,
     }
